@@ -1258,6 +1258,18 @@ func (g *gen) boundaryScenario() {
 			g.do("dump")
 		}
 		g.do("pdview live")
+		// back on the live view: every child span must still be answered by regions that contain what was asked
+		for _, r := range st[len(st)-m:] {
+			end := "-"
+			if len(r.end) > 0 {
+				end = vx.Hex(r.end)
+			}
+			g.do("loc " + vx.Hex(r.start))
+			g.do("locend " + end)
+			g.do("range " + vx.Hex(r.start) + " " + end)
+		}
+		g.do("batch " + vx.Hex(first.start) + ":" + vx.Hex(st[len(st)-1].start) + " " + vx.Hex(st[len(st)-1].start) + ":-")
+		g.do("dump")
 	}
 }
 
